@@ -283,6 +283,15 @@ def c01(run: Run):
     for b in core.script([dict(kind="lzma", lc=3, lp=0, pb=2, dict=d_, prog="X300.%d.200,M%d.273*%d,X9.%d.200,M%d.40%s" % (
             rng.below(99), rng.pick([7, 300]), (d_ * 5 // 2) // 273, rng.below(99), d_, rng.pick(["", ",E"]))) for d_ in (1 << 17, 3 << 16)]):
         run.add("lzma us=hdr in=%s" % lzma_file(b).hex(), oracle=exp_ok_out(b["out"]), tag="c01:large-window-laps")
+    # one-shot decodes share nothing: a 128 KiB window first, then three laps of a 4 KiB window (same thread)
+    seq = core.script([dict(kind="lzma", lc=3, lp=0, pb=2, dict=1 << 17, prog="X300.%d.200,M300.273*520" % rng.below(99)),
+                       dict(kind="lzma", lc=3, lp=0, pb=2, dict=4096, prog="X200.%d.200,M9.273*45,X30.%d.200,E" % (rng.below(99), rng.below(99)))])
+    run.add("lzma us=hdr in=%s" % lzma_file(seq[0]).hex(), oracle=exp_ok_out(seq[0]["out"]), tag="c01:big-window-then-small:first")
+    run.add("lzma us=hdr in=%s" % lzma_file(seq[1]).hex(), oracle=exp_ok_out(seq[1]["out"]), tag="c01:big-window-then-small:second")
+    # several laps of a small window handed to a sink that takes only part of each write
+    for b in core.script([dict(kind="lzma", lc=3, lp=0, pb=2, dict=4096, prog="X200.%d.200,M9.273*45,X30.%d.200%s" % (rng.below(99), rng.below(99), e_)) for e_ in ("", ",E")]):
+        script = ",".join(rng.pick(["u1", "u100", "u1000", "u3000"]) for _ in range(60))
+        run.add("lzma us=hdr sink=%s in=%s" % (script, lzma_file(b).hex()), oracle=exp_ok_out(b["out"]), tag="c01:laps-short-writing-sink")
     # the end marker is a match with distance 2^32 - 1 of ANY legal length (encoders write the minimum; the
     # format and liblzma accept all); and the marker still ends the stream when the caller asks to ignore a
     # (wrong) size field in the header
@@ -409,6 +418,8 @@ def c02(run: Run):
             want = "ok:%d:%s" % (used, out_repr(out))
             return None if toks[-1] == want else "a well-formed stream decoded after a failed one (same raw decoder, no reset) gave %s, the format defines %s" % (toks[-1][:60], want[:60])
         run.add("rawlzma2 ops=%s:%s;d:%s" % (rng.pick(["d", "df"]), bad.hex(), b["payload"].hex()), oracle=after_failure, tag="c02:after-failed-decode")
+    many = b"\x01\x00\x00A" + b"\x02\x00\x00B" * 50000 + b"\x00"
+    run.add("lzma2 stk=2097152 in=%s" % many.hex(), oracle=exp_ok_out(b"A" + b"B" * 50000), tag="c02:50000-chunks-on-a-2MiB-stack", cmp=False)
     if run.tier == "thorough":
         # more than 16 MiB since the last dictionary reset, then a copy reaching 9 MiB back
         big = core.script([dict(kind="lzma2", chunks="|".join(["V1:65536.%d" % 1] + ["V2:65536.%d" % (i_ + 2) for i_ in range(263)]) +
@@ -574,7 +585,9 @@ def c04(run: Run):
             if kind == "lzma" and len(data) > 70000 and t == "quick":
                 continue
             for opt in opts:
-                for sink in ([""] if not small else ["", "u1," * 40]):
+                # sinks that take part of each write (1, 7 or 100 bytes): a short write may stop anywhere, also
+                # between a chunk's header and its payload when the writer offers both in one vectored call
+                for sink in ([""] if not small else ["", "u1," * 40, rng.pick(["u7,", "u5,", "u100,"]) * 60]):
                     cid = run.add("enc kind=%s opt=%s full=1 frags=%s sink=%s in=%s" % (kind, opt or "hnone", fr, sink.rstrip(","), data.hex()),
                                   oracle=lambda res, meta, peak: None if v(res) == "ok" else "encoder failed: %s" % res[:80],
                                   tag="c04:enc:" + kind, nontrivial=len(data) > 0)
@@ -744,6 +757,9 @@ def c05_inputs(run, n):
         if m["dict"] == 4096:
             # a header announcing less than 4 KiB means 4 KiB (one rule, in the header parser, for both decoders)
             inputs.append((lzma_file(m, dict_field=rng.pick([0, 0, 1, 100, 2048, 4095])), "hdr", "small-dict-field"))
+        if rng.chance(1, 4):
+            inputs.append((lzma_header(m["lc"], m["lp"], m["pb"], m["dict"], "skip") + m["payload"], "up:%d" % U64MAX, "provided-2^64-1"))
+            inputs.append((base, "hup:%d" % rng.pick([U64MAX, U64MAX - 1, 2**32]), "provided-huge"))
         inputs.append((lzma_file(m, size=L + 1), "hdr", "size+1"))
         if L > 0:
             inputs.append((lzma_file(m, size=L - 1), "hdr", "size-1"))
@@ -821,6 +837,10 @@ def c15(run: Run):
     # outputs several times larger than the dictionary (laps of the window, copies ending on lap boundaries)
     mats += [m for m in core.gen_material("lzmawrap", run.seed + 15, sizes(run.tier, 3, 20)) if len(m["out"]) > m["dict"]]
     groups = []
+    # streams share nothing either: a stream that grew a 128 KiB window is finished, then (same thread) the ordinary cases follow
+    first = core.script([dict(kind="lzma", lc=3, lp=0, pb=2, dict=1 << 17, prog="X300.%d.200,M300.273*520" % rng.below(99))])[0]
+    run.add("stream us=hdr ops=%s" % stream_ops(lzma_file(first), [700, len(lzma_file(first))]), oracle=lambda res, meta, peak, out=first["out"]:
+            None if stream_verdict(res) == "ok" and outfield(res) == out_repr(out) else "a stream with a 128 KiB dictionary was not decoded correctly", tag="c15:big-window-first")
     if run.tier == "thorough":
         # one single write of more than 4 MiB (and the same bytes in 300 kB writes): incompressible data through the
         # crate's own literal-only encoding, so the compressed stream is as long as the data
@@ -939,7 +959,7 @@ def c16(run: Run):
         parts = split_by(bad, chunkings(rng, len(bad), 3)[-1])
         extra = [rng.bytes(rng.pick([0, 1, 30])) for _ in range(3)]
         # `wx` is the trait's own write_all: after a failure it must not report its (non-empty) buffer as written
-        ops = ";".join(["go"] + ["w:" + c.hex() for c in parts] + ["go", "f"] + ["w:" + e.hex() for e in extra] +
+        ops = ";".join(["go", "dbg"] + ["w:" + c.hex() for c in parts] + ["go", "dbg", "f"] + ["w:" + e.hex() for e in extra] +
                        ["f", "wx:" + rng.bytes(rng.pick([1, 7, 40])).hex(), "go", "w:" + good.hex(), "wx:" + good.hex(), "fin"])
         run.add("stream us=hdr ops=%s" % ops, oracle=latch_oracle, tag="c16:corrupt")
         # sink failure mid-stream latches too
